@@ -202,7 +202,7 @@ def run_case(case, res):
             for start in starts:
                 for add_self in ([False] if start is None else [False, True]):
                     sub = order if start is None else ([start] if add_self else []) + desc(start)
-                    matchers = [(p, (lambda nd, p=p: re.fullmatch(p, nd.name) if isinstance(p, str) else re.fullmatch(p[0], nd.name, p[1])),
+                    matchers = [(p, (lambda nd, p=p: re.fullmatch(p, gen.expected_name(nd)) if isinstance(p, str) else re.fullmatch(p[0], gen.expected_name(nd), p[1])),
                                  p if isinstance(p, str) else (tuple(p) if pi % 2 else list(p))) for pi, p in enumerate(PATTERNS)]  # (regex, flags) as tuple or list
                     matchers += [(nm, fn, fn) for nm, fn in preds]
                     for nm, fn, arg in matchers:
